@@ -192,6 +192,7 @@ func checkC11(c *Ctx) {
 	c.connectDecodedIntoFreshMessage()
 	// the flag byte: refused exactly when section 3.1.2 calls it malformed
 	c.connectFlagRefusals()
+	c.headerByteRefusals()
 }
 
 // closeOnRefusal: P6 - every return without a service carries a non-nil error, and
